@@ -15,16 +15,13 @@ def replay_internal(f):
     from sly.lex import LexError
     d = f['dialect']
     L, P = SW.dialect_classes(d)
-    if any(n.startswith('<any-of') for n in f['types']):
-        # the unfixed token is the offending one: any terminal outside the examined rows; pick one natively
-        return None, {'note': 'unfixed token on path'}
-    sql = to_sql(d, f['types'])
+    sql = SW.rebuild_text(d, f) if f.get('base_sql') else to_sql(d, f.get('instance') or f['types'], f.get('linenos'))
     info = {'sql': sql, 'dialect': d}
     try:
         lexed = [t.type for t in L().tokenize(sql)]
     except Exception as e:  # noqa
         return False, dict(info, lex_error=repr(e))
-    if lexed != list(f['types']):
+    if lexed != list(f.get('instance') or f['types']):
         return False, dict(info, note='text does not lex to the path token types', lexed=lexed)
     try:
         r = parse_sql(sql, d)
